@@ -1,12 +1,13 @@
 SPECIFICATION Spec
 CONSTANTS
- MaxP = 23
- MaxQ = 11
+ MaxP = 31
+ MaxQ = 15
  MaxK = 7
  Margin = 4
- Variants <- V_com2v
- NaiveMaxP = 5
+ Variants <- N_com1
+ NaiveMaxP = 0
  Mode = "nbr"
  CheckArith = FALSE
+ SortedBases = TRUE
 INVARIANTS BlockIsDefinition Sound Complete Shape Elements Emit
 CHECK_DEADLOCK FALSE
